@@ -444,7 +444,11 @@ def excludeGlobs (isDir : Str → Bool) (cfg : CfgVal) (excluded : Str) : M (Lis
     | .list xs =>
       let ss ← pyStrs xs     -- a non-str pattern makes `fnmatch` raise on the first file
       pure (ss ++ cliParts)
-    | _ => if cliParts.isEmpty then throw .typeError else throw .attributeError   -- `.append` on a non-list
+    -- `list(exclude_dirs or [])` (a copy since /repo 35c448a): a string is copied as its characters, a mapping as its keys, anything else
+    -- that is truthy (a number, `true`) is not iterable
+    | .str s => pure (s.map (fun c => [c]) ++ cliParts)
+    | .map kvs => pure (kvs.map (·.1) ++ cliParts)
+    | _ => throw .typeError
   else pure cliParts
 
 /-- `_is_file_included(..)`'s exclusion half -/
